@@ -1319,21 +1319,28 @@ def run_maps():
     cases = []
     for i in range(3000 if chk.thorough else 300):
         # ---- backward style .map ----
-        lines, decl = [], collections.OrderedDict()
+        lines, decl, ffdecl = [], collections.OrderedDict(), {}
         fault = rng.random() < 0.2
         simple = rng.random() < 0.6        # simple files have an independent expectation
         for res in rng.sample(['ALA', 'GLY', 'LYS'] + ([] if simple else ['UNK']), rng.randint(1, 3)):
             lines += [rng.choice(['[ molecule ]', '[molecule]', '[ molecule ] ; c']), res]
+            froms, tos_ff = [], []
             if simple:
                 lines += ['[ from ]', 'aa', '[ to ]', 'cg']
+                froms, tos_ff = ['aa'], ['cg']
             else:
                 k = rng.random()
                 if k < 0.5:
-                    lines += [rng.choice(['[ from ]', '[ mapping ]']), rng.choice(['aa', 'aa other', 'aa cg'])]
+                    v = rng.choice(['aa', 'aa other', 'aa cg'])
+                    lines += [rng.choice(['[ from ]', '[ mapping ]']), v]
+                    froms = v.split()
                 if rng.random() < 0.6:
-                    lines += ['[ to ]', rng.choice(['cg', 'cg aa', 'nope'])]
+                    v = rng.choice(['cg', 'cg aa', 'nope'])
+                    lines += ['[ to ]', v]
+                    tos_ff = v.split()
                 if rng.random() < 0.3:
                     lines += ['[ martini ]', 'BB SC1', '[ extra ]', 'X1 X2']
+            ffdecl[res] = (froms or ['universal'], tos_ff or ['martini22'])
             lines.append('[ atoms ]')
             m = collections.OrderedDict()
             pool = atoms['aa'] if simple else atoms['aa'] + ['QQ']
@@ -1357,11 +1364,18 @@ def run_maps():
                 lines.insert(rng.choice(j) + 1, '7')              # atom line without a source atom
             else:
                 lines = [t for t in lines if 'molecule' not in t]
-        cases.append((lines, decl, fault, simple, conflict))
+        cases.append((lines, decl, fault, simple, conflict, ffdecl))
     plines = [line('backmap', lib, ls) for ls, *_ in cases]
-    for i, ((lines, decl, fault, simple, conflict), ln, mo) in enumerate(zip(cases, plines, ask(plines))):
+    for i, ((lines, decl, fault, simple, conflict, ffdecl), ln, mo) in enumerate(zip(cases, plines, ask(plines))):
         errs = []
         out, im = backmap_impl(lines, ffs)
+        if not fault and not conflict and out is not None:
+            # every molecule is loaded for exactly the declared (origin, destination) force-field pairs
+            want3 = {(f, t, res) for res, (fl, tl) in ffdecl.items() for f in fl for t in tl
+                     if f in ffs and t in ffs and res in ffs[f].blocks and res in ffs[t].blocks}
+            have3 = {(f, t, n) for f, d in out.items() for t, d2 in d.items() for n in d2}
+            if want3 != have3:
+                errs.append('.map loaded for %r, declared for %r' % (sorted(have3), sorted(want3)))
         if not fault and simple:
             if conflict:
                 if out is not None:
